@@ -166,3 +166,258 @@ Lemma ds_clean_example :
                                 (OPub 0 5, clean); (ORestart, clean); (OSub 0 [], clean)] init in
   map e_val (log s) = [1; 2; 3; 4; 5] /\ rev (for_id 0 (dels s)) = [1; 3; 4; 5] /\ get_saved s 0 = 5.
 Proof. vm_compute. auto. Qed.
+
+(* ================================================================== *)
+(* No loss, as long as no SubscribeWithReplay is cut short: histories in which publishes may die or fail at any point,
+   but every SubscribeWithReplay runs undisturbed (clean plan, no publishes from inside the replay) and the log fits one
+   page.  Then everything of a subscription's type at or below its saved position has been delivered to it, and a live
+   subscription is up to date - the same invariant as for the other stores (ResubProofs.inv). *)
+
+Lemma page_cov tys id N : forall tl cur s k,
+  quiet s -> 1 <= cur -> cur - 1 + length tl = length (log s) ->
+  (forall j e, nth_error tl j = Some e -> nth_error (log s) (cur - 1 + j) = Some e) ->
+  (forall p, typed tys (log s) id p -> p < cur -> delivered s id p) ->
+  let r := page_loop (indexed tl cur) s id (nth id tys 0) N k [] in
+  quiet (fst r) /\ grows s (fst r) /\ log (fst r) = log s /\ live (fst r) = live s /\ last (fst r) = last s /\
+  (forall i, i <> id -> get_saved (fst r) i = get_saved s i) /\
+  (get_saved (fst r) id = get_saved s id \/ get_saved (fst r) id = N) /\
+  (forall p, typed tys (log s) id p -> delivered (fst r) id p).
+Proof.
+  induction tl as [|e tl IH]; intros cur s k Q Hc Hlen Hnth Hb; cbn [indexed page_loop].
+  - cbn [fst]. splits; auto using grows_refl. intros p Ht. apply (Hb p Ht). apply typed_bound in Ht. cbn in Hlen. lia.
+  - assert (He : nth_error (log s) (cur - 1) = Some e) by (rewrite <- (Nat.add_0_r (cur - 1)); apply Hnth; reflexivity).
+    cbn [length] in Hlen.
+    assert (Hnth' : forall s', log s' = log s -> forall j e', nth_error tl j = Some e' -> nth_error (log s') (S cur - 1 + j) = Some e').
+    { intros s' L' j e' Hj. rewrite L'. replace (S cur - 1 + j) with (cur - 1 + S j) by lia. apply Hnth. exact Hj. }
+    destruct (Nat.eqb (e_ty e) (nth id tys 0)) eqn:Ety.
+    + apply Nat.eqb_eq in Ety. cbn [inner_at filter map fold_left].
+      destruct (deliver_quiet s id (e_val e) cur Q) as [Q2 _].
+      pose proof (deliver_fields s id (e_val e) cur) as F2. cbv zeta in F2. destruct F2 as (L2 & S2 & La2 & Li2 & _ & _).
+      pose proof (deliver_grows s id (e_val e) cur) as G2.
+      pose proof (deliver_delivered s id (e_val e) cur (proj1 Q)) as Hdel.
+      set (s2 := deliver s id (e_val e) cur) in *.
+      destruct (save_quiet s2 id N Q2) as [Q4 S4].
+      pose proof (save_fields s2 id N) as F4. cbv zeta in F4. destruct F4 as (L4 & La4 & Li4 & _ & _ & _).
+      pose proof (save_grows s2 id N) as G4.
+      set (s4 := save s2 id N) in *.
+      assert (Lall : log s4 = log s) by congruence.
+      assert (Hb4 : forall p, typed tys (log s4) id p -> p < S cur -> delivered s4 id p).
+      { intros p Htp Hp. eapply delivered_mono; [exact G4|]. destruct (Nat.eq_dec p cur) as [->|Hne]; [exact Hdel|].
+        eapply delivered_mono; [exact G2|]. apply Hb; [rewrite <- Lall; exact Htp | lia]. }
+      assert (Hlen4 : S cur - 1 + length tl = length (log s4)) by (rewrite Lall; lia).
+      specialize (IH (S cur) s4 (S k) Q4 (le_S _ _ Hc) Hlen4 (Hnth' s4 Lall) Hb4). cbv zeta in IH.
+      destruct IH as (Q5 & G5 & L5 & Li5 & La5 & O5 & Sv5 & Hall).
+      assert (Sid : get_saved s4 id = N) by (unfold get_saved; rewrite S4; apply get_set_same).
+      splits; auto.
+      * eapply grows_trans; [exact G2|]. eapply grows_trans; eassumption.
+      * congruence.
+      * congruence.
+      * congruence.
+      * intros i Hi. rewrite (O5 i Hi). unfold get_saved. rewrite S4, get_set_other by exact Hi. rewrite S2. reflexivity.
+      * right. destruct Sv5 as [X|X]; rewrite X; [exact Sid | reflexivity].
+      * intros p Htp. apply Hall. rewrite Lall. exact Htp.
+    + apply Nat.eqb_neq in Ety.
+      assert (Hb1 : forall p, typed tys (log s) id p -> p < S cur -> delivered s id p).
+      { intros p Htp Hp. destruct (Nat.eq_dec p cur) as [->|Hne].
+        - destruct Htp as [e' [_ [Hn He']]]. rewrite He in Hn. inversion Hn; subst e'. contradiction.
+        - apply Hb; [exact Htp | lia]. }
+      assert (Hlen1 : S cur - 1 + length tl = length (log s)) by lia.
+      apply (IH (S cur) s k Q (le_S _ _ Hc) Hlen1 (Hnth' s eq_refl) Hb1).
+Qed.
+
+Lemma replay_pages_unfold f s id ty from k inner :
+  replay_pages (S f) s id ty from k inner =
+  let '(s1, p, fl) := tick s in
+  if negb p || fl then (s1, true)
+  else
+    let N := length (log s1) in
+    match firstn batch (skipn from (indexed (log s1) 1)) with
+    | [] => (s1, false)
+    | page =>
+      let '(s2, k2) := page_loop page s1 id ty N k inner in
+      if Nat.eqb N from then (s2, true) else replay_pages f s2 id ty N k2 inner
+    end.
+Proof. reflexivity. Qed.
+
+(* reading at the end of the log: an empty page, the replay is over *)
+Lemma pages_end f s id ty k : quiet s ->
+  exists s1, replay_pages (S f) s id ty (length (log s)) k [] = (s1, false) /\ quiet s1 /\
+    log s1 = log s /\ saved s1 = saved s /\ last s1 = last s /\ live s1 = live s /\ dels s1 = dels s.
+Proof.
+  intros Q. rewrite replay_pages_unfold. destruct (tick_quiet s Q) as (s1 & Ht & Q1 & L1 & S1 & La1 & Li1 & D1). rewrite Ht.
+  cbn [negb orb]. cbv zeta. rewrite skipn_indexed, L1, skipn_all. cbn [indexed]. rewrite firstn_nil. exists s1. splits; auto.
+Qed.
+
+Lemma pages_cov tys id f s :
+  quiet s -> wf s -> length (log s) <= batch ->
+  (forall p, typed tys (log s) id p -> p <= get_saved s id -> delivered s id p) ->
+  let r := replay_pages (S (S f)) s id (nth id tys 0) (get_saved s id) 0 [] in
+  snd r = false /\ quiet (fst r) /\ grows s (fst r) /\ log (fst r) = log s /\ live (fst r) = live s /\ last (fst r) = last s /\
+  (forall i, i <> id -> get_saved (fst r) i = get_saved s i) /\
+  (get_saved (fst r) id = get_saved s id \/ get_saved (fst r) id = length (log s)) /\
+  (forall p, typed tys (log s) id p -> delivered (fst r) id p).
+Proof.
+  intros Q W Hb Hc. set (from := get_saved s id).
+  assert (Hfrom : from <= length (log s)) by apply (proj1 (proj2 W)).
+  rewrite replay_pages_unfold. destruct (tick_quiet s Q) as (s1 & Ht & Q1 & L1 & S1 & La1 & Li1 & D1). rewrite Ht.
+  cbn [negb orb]. cbv zeta. rewrite skipn_indexed, L1.
+  rewrite firstn_all2 by (assert (X : forall (l : list ev) i, length (indexed l i) = length l)
+                             by (induction l as [|x l IHl]; intros i; cbn; [reflexivity | rewrite IHl; reflexivity]);
+                           rewrite X, skipn_length; lia).
+  assert (G1 : grows s s1) by (exists []; exact D1).
+  destruct (skipn from (log s)) as [|e tl] eqn:Esk.
+  - (* nothing after the saved position *)
+    cbn [indexed fst snd]. splits; auto.
+    + intros i _. unfold get_saved. rewrite S1. reflexivity.
+    + left. unfold get_saved. rewrite S1. reflexivity.
+    + intros p Ht'. eapply delivered_mono; [exact G1|]. apply (Hc p Ht').
+      assert (length (skipn from (log s)) = 0) by (rewrite Esk; reflexivity). rewrite skipn_length in H.
+      apply typed_bound in Ht'. fold from. lia.
+  - assert (Hlt : from < length (log s)).
+    { assert (length (skipn from (log s)) = S (length tl)) by (rewrite Esk; reflexivity). rewrite skipn_length in H. lia. }
+    assert (Hlen : 1 + from - 1 + length (e :: tl) = length (log s1)).
+    { rewrite L1, <- Esk, skipn_length. lia. }
+    assert (Hnth : forall j e', nth_error (e :: tl) j = Some e' -> nth_error (log s1) (1 + from - 1 + j) = Some e').
+    { intros j e' Hj. rewrite <- Esk, nth_error_skipn' in Hj. rewrite L1. replace (1 + from - 1 + j) with (from + j) by lia. exact Hj. }
+    assert (Hb1 : forall p, typed tys (log s1) id p -> p < 1 + from -> delivered s1 id p).
+    { intros p Htp Hp. eapply delivered_mono; [exact G1|]. apply Hc; [rewrite <- L1; exact Htp | fold from; lia]. }
+    pose proof (page_cov tys id (length (log s)) (e :: tl) (1 + from) s1 0 Q1 (le_n_S _ _ (Nat.le_0_l from)) Hlen Hnth Hb1) as H.
+    cbv zeta in H. cbn [indexed] in H |- *.
+    destruct (page_loop ((1 + from, e) :: indexed tl (S (1 + from))) s1 id (nth id tys 0) (length (log s)) 0 []) as [s2 k2].
+    cbn [fst] in H. destruct H as (Q2 & G2 & L2 & Li2 & La2 & O2 & Sv2 & Hall).
+    assert (Ene : Nat.eqb (length (log s)) from = false) by (apply Nat.eqb_neq; lia). rewrite Ene.
+    assert (Ll : length (log s) = length (log s2)) by congruence. rewrite Ll.
+    destruct (pages_end f s2 id (nth id tys 0) k2 Q2) as (s3 & E3 & Q3 & L3 & S3 & La3 & Li3 & D3). rewrite E3.
+    cbn [fst snd]. splits; auto.
+    + eapply grows_trans; [exact G1|]. eapply grows_trans; [exact G2|]. exists []. exact D3.
+    + congruence.
+    + congruence.
+    + congruence.
+    + intros i Hi. unfold get_saved. rewrite S3. fold (get_saved s2 i). rewrite (O2 i Hi). unfold get_saved. rewrite S1. reflexivity.
+    + assert (X3 : get_saved s3 id = get_saved s2 id) by (unfold get_saved; rewrite S3; reflexivity). rewrite X3.
+      destruct Sv2 as [X|X]; [left; rewrite X; unfold from, get_saved; rewrite S1; reflexivity | right; rewrite X; exact Ll].
+    + intros p Htp. eapply delivered_mono; [exists []; exact D3|]. apply Hall. rewrite L1. exact Htp.
+Qed.
+
+Lemma sub_ds_inv tys f s id :
+  inv tys s -> quiet s -> is_live s id = false -> length (log s) <= batch ->
+  inv tys (fst (sub_ds (S (S f)) tys s id [])).
+Proof.
+  intros (W & C & LC) Q NL Hb.
+  pose proof (sub_ds_mono (S (S f)) tys s id [] W NL) as SE. cbv zeta in SE. destruct SE as [W' _].
+  split; [exact W'|]. clear W'. unfold sub_ds.
+  destruct (tick_quiet s Q) as (s1 & Ht & Q1 & L1 & S1 & La1 & Li1 & D1). rewrite Ht. cbn [negb orb].
+  assert (W1 : wf s1) by (apply (wf_same s s1); assumption).
+  assert (G1 : grows s s1) by (exists []; exact D1).
+  assert (Hc : forall p, typed tys (log s1) id p -> p <= get_saved s1 id -> delivered s1 id p).
+  { intros p Htp Hp. eapply delivered_mono; [exact G1|]. apply C; [rewrite <- L1; exact Htp | unfold get_saved in *; rewrite <- S1; exact Hp]. }
+  pose proof (pages_cov tys id f s1 Q1 W1 ltac:(rewrite L1; exact Hb) Hc) as H. cbv zeta in H.
+  destruct (replay_pages (S (S f)) s1 id (nth id tys 0) (get_saved s1 id) 0 []) as [s3 err].
+  cbn [fst snd] in H. destruct H as (Er & Q3 & G3 & L3 & Li3 & La3 & O3 & Sv3 & Hall). subst err.
+  rewrite (proj1 Q3). cbn [orb fst]. split.
+  - intros i q Hq Hle. cbn [log with_live] in Hq. unfold get_saved in Hle. cbn [saved with_live] in Hle. fold (get_saved s3 i) in Hle.
+    assert (Hd : delivered s3 i q).
+    { destruct (Nat.eq_dec i id) as [->|Hne].
+      - apply Hall. rewrite <- L3. exact Hq.
+      - rewrite (O3 i Hne) in Hle. eapply delivered_mono; [exact (grows_trans _ _ _ G1 G3)|].
+        apply C; [rewrite <- L1, <- L3; exact Hq | unfold get_saved in *; rewrite <- S1; exact Hle]. }
+    destruct Hd as [d Hd]. exists d. exact Hd.
+  - intros _ i t Hin. cbn [live with_live] in Hin. apply in_app_or in Hin. destruct Hin as [Hin | [Heq | []]].
+    + rewrite Li3, Li1 in Hin. destruct (LC (proj1 Q) i t Hin) as [X1 X2]. split; [exact X1|].
+      intros q Hq. cbn [log with_live] in Hq.
+      destruct (X2 q) as [d Hd]; [rewrite <- L1, <- L3; exact Hq|].
+      destruct (delivered_mono s s3 i q (grows_trans _ _ _ G1 G3) (ex_intro _ d Hd)) as [d' Hd']. exists d'. exact Hd'.
+    + inversion Heq; subst i t. split; [reflexivity|]. intros q Hq. cbn [log with_live] in Hq.
+      destruct (Hall q) as [d Hd]; [rewrite <- L3; exact Hq | exists d; exact Hd].
+Qed.
+
+(* a dead process does nothing *)
+Lemma sub_ds_dead fuel tys s id inner : dead s = true -> fst (sub_ds fuel tys s id inner) = s.
+Proof.
+  intros D. unfold sub_ds. destruct (tick s) as [[s1 p] f] eqn:Ht. apply tick_fields in Ht.
+  destruct Ht as (_ & _ & _ & _ & _ & P & Dd & _). rewrite D in P. cbn in P. subst p. cbn [negb orb fst]. apply Dd. exact D.
+Qed.
+
+Definition sub_clean (x : op * plan) : Prop :=
+  match fst x with OSub _ inner => inner = [] /\ snd x = clean | _ => True end.
+Definition subs_clean (h : list (op * plan)) : Prop := Forall sub_clean h.
+
+Lemma step_ds_inv tys f s o pl :
+  sub_clean (o, pl) -> length (log s) <= batch -> inv tys s -> inv tys (fst (step_ds (S (S f)) tys s o pl)).
+Proof.
+  intros Hc Hb I. destruct o as [ty val | id inner |]; cbn [step_ds].
+  - cbn [fst]. apply pub_inv. apply begin_op_inv. exact I.
+  - unfold sub_clean in Hc. cbn [fst snd] in Hc. destruct Hc as [-> ->]. destruct (op_ok s (OSub id [])) eqn:Ok; [|exact I].
+    cbn [op_ok] in Ok. apply negb_true_iff in Ok.
+    destruct (dead s) eqn:Ds.
+    + rewrite sub_ds_dead by (cbn; rewrite Ds; reflexivity). apply begin_op_inv. exact I.
+    + apply sub_ds_inv; [apply begin_op_inv; exact I | unfold quiet; cbn; rewrite Ds; auto | exact Ok | exact Hb].
+  - cbn [fst]. destruct I as (W & C & LC). destruct (restart_ext s) as [_ W']. split; [apply W'; exact W|]. split.
+    + apply (covered_mono tys s (restart s)); [reflexivity | reflexivity | exists []; reflexivity | exact C].
+    + intros _ id ty [].
+Qed.
+
+Lemma run_ds_inv tys f : forall h s,
+  subs_clean h -> length (log (run_ds (S (S f)) tys h s)) <= batch -> inv tys s -> inv tys (run_ds (S (S f)) tys h s).
+Proof.
+  induction h as [|[o pl] r IH]; intros s Hc Hb I; cbn [run_ds fold_left]; [exact I|].
+  inversion Hc; subst. cbn [fst snd] in *.
+  set (s1 := fst (step_ds (S (S f)) tys s o pl)) in *.
+  assert (W : wf s) by apply I.
+  destruct (step_ds_mono (S (S f)) tys s o pl W) as [W1 M1]. fold s1 in W1, M1.
+  destruct (run_ds_mono (S (S f)) tys r s1 W1) as [_ M2].
+  assert (Hbs : length (log s) <= batch).
+  { apply mono_len in M1. apply mono_len in M2. unfold run_ds in Hb, M2. cbn [fold_left fst snd] in Hb. fold s1 in Hb. lia. }
+  apply IH; [assumption | exact Hb | apply step_ds_inv; assumption].
+Qed.
+
+Theorem nothing_lost_ds tys f h :
+  subs_clean h -> length (log (run_ds (S (S f)) tys h init)) <= batch ->
+  covered tys (run_ds (S (S f)) tys h init) /\ live_cov tys (run_ds (S (S f)) tys h init).
+Proof. intros Hc Hb. destruct (run_ds_inv tys f h init Hc Hb (inv_init tys)) as (_ & C & LC). split; assumption. Qed.
+
+
+Lemma sub_ds_live tys f s id :
+  inv tys s -> quiet s -> is_live s id = false -> length (log s) <= batch ->
+  dead (fst (sub_ds (S (S f)) tys s id [])) = false /\ In (id, nth id tys 0) (live (fst (sub_ds (S (S f)) tys s id []))).
+Proof.
+  intros (W & C & LC) Q NL Hb. unfold sub_ds.
+  destruct (tick_quiet s Q) as (s1 & Ht & Q1 & L1 & S1 & La1 & Li1 & D1). rewrite Ht. cbn [negb orb].
+  assert (W1 : wf s1) by (apply (wf_same s s1); assumption).
+  assert (G1 : grows s s1) by (exists []; exact D1).
+  assert (Hc : forall p, typed tys (log s1) id p -> p <= get_saved s1 id -> delivered s1 id p).
+  { intros p Htp Hp. eapply delivered_mono; [exact G1|]. apply C; [rewrite <- L1; exact Htp | unfold get_saved in *; rewrite <- S1; exact Hp]. }
+  pose proof (pages_cov tys id f s1 Q1 W1 ltac:(rewrite L1; exact Hb) Hc) as H. cbv zeta in H.
+  destruct (replay_pages (S (S f)) s1 id (nth id tys 0) (get_saved s1 id) 0 []) as [s3 err].
+  cbn [fst snd] in H. destruct H as (Er & Q3 & _). subst err.
+  rewrite (proj1 Q3). cbn [orb fst]. split; [cbn; exact (proj1 Q3) | cbn [live with_live]; apply in_or_app; right; left; reflexivity].
+Qed.
+
+(* ... and after a clean restart and an undisturbed SubscribeWithReplay the subscription has been delivered every persisted
+   event of its type *)
+Theorem caught_up_after_resubscribe_ds tys f h id :
+  subs_clean h ->
+  let s := run_ds (S (S f)) tys (h ++ [(ORestart, clean); (OSub id [], clean)]) init in
+  length (log s) <= batch -> forall p, typed tys (log s) id p -> delivered s id p.
+Proof.
+  intros Hc s Hb.
+  assert (Hc' : subs_clean (h ++ [(ORestart, clean); (OSub id [], clean)])).
+  { apply Forall_app. split; [exact Hc|]. repeat constructor. }
+  destruct (run_ds_inv tys f _ init Hc' Hb (inv_init tys)) as (_ & _ & LC). fold s in LC.
+  set (s0 := run_ds (S (S f)) tys h init).
+  assert (W0 : wf s0) by (apply (run_ds_mono (S (S f)) tys h init wf_init)).
+  assert (Es : s = fst (sub_ds (S (S f)) tys (begin_op (restart s0) clean) id [])).
+  { unfold s, run_ds. rewrite fold_left_app. fold (run_ds (S (S f)) tys h init). fold s0. reflexivity. }
+  assert (M : mono s0 s).
+  { unfold s, run_ds. rewrite fold_left_app. fold (run_ds (S (S f)) tys h init). fold s0.
+    apply (run_ds_mono (S (S f)) tys [(ORestart, clean); (OSub id [], clean)] s0 W0). }
+  assert (Hb0 : length (log s0) <= batch) by (apply mono_len in M; lia).
+  assert (I0 : inv tys s0) by (apply (run_ds_inv tys f h init Hc Hb0 (inv_init tys))).
+  assert (I1 : inv tys (begin_op (restart s0) clean)).
+  { apply begin_op_inv. destruct I0 as (W & C & _). destruct (restart_ext s0) as [_ W']. split; [apply W'; exact W|]. split.
+    - apply (covered_mono tys s0 (restart s0)); [reflexivity | reflexivity | exists []; reflexivity | exact C].
+    - intros _ i t []. }
+  assert (Q : quiet (begin_op (restart s0) clean)) by (unfold quiet; cbn; auto).
+  destruct (sub_ds_live tys f _ id I1 Q eq_refl Hb0) as [D Hin]. rewrite <- Es in D, Hin.
+  intros p Hp. exact (proj2 (LC D id _ Hin) p Hp).
+Qed.
